@@ -36,7 +36,7 @@ CHECKS = {
         note="shares R-CONSUMED/R-BOXHDR/R-AUXBOX with C10 and R-EOF-* with C11; intraprocedural",
         ref="DESIGN.md section 8.6"),
     "C10": dict(
-        technique="typestate transition-table extraction from MIR and comparison with the container-format reference; guard reconstruction; constant-propagating walk of the header parser's decision tree; must-pass-through (consumed counter; tail move after feed_bytes in the read loops); registry of repair guards (reserved-prefix byte string, brob size facts); evaluation of the box header parser from MIR on crafted headers against the ISO BMFF size rules",
+        technique="typestate transition-table extraction from MIR and comparison with the container-format reference; guard reconstruction; constant-propagating walk of the header parser's decision tree; must-pass-through (consumed counter; tail move after feed_bytes in the read loops); registry of repair guards (reserved-prefix byte string, brob size facts); evaluation of the box header parser from MIR on crafted headers against the ISO BMFF size rules; construction-site rule on DetectState::InCodestream (NoMoreAuxBox armed only with bytes_left None)",
         text="Decides the rejection clause and the size arithmetic for all layouts and chunkings: the jxlc/jxlp transition table equals "
              "the reference (duplicate/out-of-order/late codestream boxes -> error), undersized jxlp/brob boxes and compressed reserved "
              "types are rejected before the unchecked subtractions, the header parser is prefix-closed for the 64-bit size marker, and the "
@@ -121,13 +121,13 @@ CHECKS = {
         note="everything arithmetic about prediction, context trees, fast paths and inverse transforms is undecided",
         ref="DESIGN.md section 8.14"),
     "C04": dict(
-        technique="comparison of rustc-evaluated constant tables with references transcribed from the standards; validation-check reconstruction from MIR against a reviewed table; constant-agreement rule on the LZ77 window; constant-propagating path rule (enum variant fixed) on the single-token shortcut; must-pass-through of Decoder::finalize for every decoder owner; must-pass-through of the bit-buffer refill on every path of Coder::read_symbol; must-pass-through of the previous-symbol store between two code-length symbol reads",
+        technique="comparison of rustc-evaluated constant tables with references transcribed from the standards; validation-check reconstruction from MIR against a reviewed table; constant-agreement rule on the LZ77 window; constant-propagating path rule (enum variant fixed) on the single-token shortcut; must-pass-through of Decoder::finalize for every decoder owner; must-pass-through of the bit-buffer refill on every path of Coder::read_symbol; must-pass-through of the previous-symbol store between two code-length symbol reads; abstract evaluation from MIR with scripted bit / symbol sources of the hybrid-integer configuration parser (every field combination, R-HYBRID-CONFIG) and of the context-map reader incl. inverse move-to-front (R-CLUSTER-MAP) against the format",
         text="Claimed narrowly: three structural necessary conditions. The tables the entropy decoder takes from the format (LZ77 special "
              "distances, code-length order) have the specified values; the acceptance checks the property names (ANS final state 0x130000, "
              "complete prefix codes, distribution sums, cluster map holes, Lehmer digits) exist as compare->error; the LZ77 window "
              "constants agree between writer index, reader index and distance clamp. Does not decide that decoding returns the encoded "
              "sequence or consumes exactly the encoded bits (value-level round trip).",
-        note="the ANS mask / table-size agreement is decided under C02 (R-UNSAFE-b); alias-table construction, prefix lookup tables and hybrid-integer expansion are not decided",
+        note="the ANS mask / table-size agreement is decided under C02 (R-UNSAFE-b); alias-table construction, prefix lookup tables and hybrid-integer expansion of tokens are not decided",
         ref="DESIGN.md section 8.9"),
     "C19": dict(
         technique="comparison of rustc-evaluated colour constants and recognition tables with references transcribed from the cited standards or derived by formula; writer/reader agreement of the cicp tag layout (offset, element index, codes) extracted from MIR; backward data-flow slice of the recovered chromaticities (no range-limiting operation); sibling agreement of the sign handling in the two scalar directions of each transfer curve; path independence of the TRC-presence store from the curve-recognition store in detect_profile_info; decision table of EnumColourEncoding::cicp over the enum values (abstract evaluation of MIR); evaluation of the scalar transfer functions from MIR against the curves of the cited standards; evaluation of the chromatic adaptation matrix from MIR against the Bradford transform",
@@ -147,7 +147,7 @@ CHECKS = {
         note="sibling agreement is a cross-check, not a proof of equal results: arms that differ only in arithmetic constants of the same operators are not distinguished",
         ref="DESIGN.md section 8.13"),
     "C17": dict(
-        technique="interval abstract interpretation of reconstruction-header fields to panicking operations; backward data-flow of unwrapped iterator searches; validation-check reconstruction from MIR against a reviewed table (through helper and predicate functions); symbolic carving of the data section; per-variant constant-propagating path rules for the status query; registry of repair guards (data-section completeness before slicing / before reporting Available); backward data-dependence slice of the ICC payload write on the marker's declared length; reachability walk (block x pending) for the correction-bit counter of the refinement scan",
+        technique="interval abstract interpretation of reconstruction-header fields to panicking operations; backward data-flow of unwrapped iterator searches; validation-check reconstruction from MIR against a reviewed table (through helper and predicate functions); symbolic carving of the data section; per-variant constant-propagating path rules for the status query; registry of repair guards (data-section completeness before slicing / before reporting Available); backward data-dependence slice of the ICC payload write on the marker's declared length; reachability walk (block x pending) for the correction-bit counter of the refinement scan; abstract evaluation from MIR of ScanMoreInfo::parse on scripted field reads (the two delta-coded block lists, R-JBR-SCANINFO)",
         text="Claimed narrowly: the two clauses visible in the shape of the code. (1) jpeg_reconstruction_status reports Available only on the "
              "Data state of the jbrd box and after each piece of metadata the header expects (ICC, Exif, XMP) has been probed; "
              "reconstruct_jpeg refuses incomplete box states and a missing frame before unwrapping. (2) Hostile reconstruction data is an "
